@@ -4,6 +4,7 @@ import (
 	"strconv"
 	"strings"
 
+	"github.com/jub0bs/cors"
 	"github.com/jub0bs/cors/internal/headers"
 	"github.com/jub0bs/cors/internal/util"
 )
@@ -112,4 +113,121 @@ func suiteTreeX(e *emitter, k int) {
 	}
 	rec(nil, k)
 	_ = strings.Join
+}
+
+// validatex: every sequence of up to `depth` atoms in one list field at a time (the other fields at
+// their defaults), crossed with the switches that field interacts with; then every combination of scalars.
+func suiteValidateX(e *emitter, depth int) {
+	base := func() cors.Config { return cors.Config{Origins: []string{"https://example.com"}} }
+	seqs := func(atoms []string, f func([]string)) {
+		var rec func(cur []string, d int)
+		rec = func(cur []string, d int) {
+			f(append([]string(nil), cur...))
+			if d == 0 {
+				return
+			}
+			for _, a := range atoms {
+				rec(append(cur, a), d-1)
+			}
+		}
+		rec(nil, depth)
+	}
+	bools := []bool{false, true}
+	seqs([]string{"*", "Authorization", "authorization", "X-A", "x-a", "sec-x", "bad name", "Access-Control-Request-Method"}, func(l []string) {
+		for _, cred := range bools {
+			c := base()
+			c.RequestHeaders, c.Credentialed = l, cred
+			validateCase(e, c)
+		}
+	})
+	seqs([]string{"*", "GET", "put", "PUT", "PATCH", "patch", "CONNECT", "bad m"}, func(l []string) {
+		c := base()
+		c.Methods = l
+		validateCase(e, c)
+	})
+	seqs([]string{"*", "X-B", "x-b", "Set-Cookie", "Cache-Control", "Origin", "b d"}, func(l []string) {
+		for _, cred := range bools {
+			c := base()
+			c.ResponseHeaders, c.Credentialed = l, cred
+			validateCase(e, c)
+		}
+	})
+	seqs([]string{"*", "https://a.com", "http://a.com", "http://localhost", "http://127.0.0.1", "https://*.com", "https://*.a.com", "https://a.com:*", "null", "https://a.com/"}, func(l []string) {
+		if len(l) > 2 {
+			return
+		}
+		for _, cred := range bools {
+			for pna := 0; pna < 4; pna++ {
+				for _, tolI := range bools {
+					for _, tolP := range bools {
+						c := cors.Config{Origins: l, Credentialed: cred}
+						c.PrivateNetworkAccess, c.PrivateNetworkAccessInNoCORSModeOnly = pna&1 != 0, pna&2 != 0
+						c.DangerouslyTolerateInsecureOrigins, c.DangerouslyTolerateSubdomainsOfPublicSuffixes = tolI, tolP
+						validateCase(e, c)
+					}
+				}
+			}
+		}
+	})
+	for _, ma := range []int{0, -1, -2, 1, 5, 86400, 86401} {
+		for _, st := range []int{0, 199, 200, 204, 299, 300, 456, 200 + 256, -56} {
+			c := base()
+			c.MaxAgeInSeconds, c.PreflightSuccessStatus = ma, st
+			validateCase(e, c)
+		}
+	}
+}
+
+// servex: a handful of configurations (one per decision regime) x every combination of request atoms x debug.
+func suiteServeX(e *emitter, depth int) {
+	cfgs := []cors.Config{
+		{Origins: []string{"https://a.com"}},
+		{Origins: []string{"https://a.com", "https://*.b.com:*"}, Methods: []string{"PUT", "PATCH"}, RequestHeaders: []string{"X-A", "Authorization"}, ResponseHeaders: []string{"X-B"}, MaxAgeInSeconds: 30},
+		{Origins: []string{"https://a.com"}, Credentialed: true, Methods: []string{"PUT"}, RequestHeaders: []string{"X-A"}, ResponseHeaders: []string{"X-B"}, ExtraConfig: cors.ExtraConfig{PreflightSuccessStatus: 279}},
+		{Origins: []string{"https://a.com"}, Credentialed: true, Methods: []string{"*"}, RequestHeaders: []string{"*"}, MaxAgeInSeconds: -1},
+		{Origins: []string{"*"}, Methods: []string{"*"}, RequestHeaders: []string{"*"}, ResponseHeaders: []string{"*"}},
+		{Origins: []string{"*"}, RequestHeaders: []string{"*", "Authorization"}},
+		{Origins: []string{"https://a.com"}, ExtraConfig: cors.ExtraConfig{PrivateNetworkAccess: true}, Methods: []string{"PUT"}},
+		{Origins: []string{"https://a.com"}, ExtraConfig: cors.ExtraConfig{PrivateNetworkAccessInNoCORSModeOnly: true}, Credentialed: true},
+	}
+	type opt struct {
+		present bool
+		v       []string
+	}
+	origins := []opt{{false, nil}, {true, []string{"https://a.com"}}, {true, []string{"https://x.b.com:8080"}}, {true, []string{"https://evil.com"}}, {true, []string{"https://a.com/"}}, {true, []string{""}}, {true, []string{}}}
+	acrms := []opt{{false, nil}, {true, []string{""}}, {true, []string{}}, {true, []string{"GET"}}, {true, []string{"PUT"}}, {true, []string{"put"}}, {true, []string{"DELETE"}}, {true, []string{"PUT", "GET"}}}
+	acrhs := []opt{{false, nil}, {true, []string{}}, {true, []string{""}}, {true, []string{"x-a"}}, {true, []string{"authorization,x-a"}}, {true, []string{"x-a", "authorization"}}, {true, []string{" x-a\t"}}, {true, []string{"x-c"}}, {true, []string{"X-A"}}}
+	acrpns := []opt{{false, nil}, {true, []string{"true"}}, {true, []string{"false"}}}
+	pres := [][]kv{nil, {{"Vary", []string{"Accept-Encoding"}}}}
+	if depth < 2 {
+		acrhs = acrhs[:6]
+	}
+	for _, c := range cfgs {
+		for _, method := range []string{"OPTIONS", "GET", "options"} {
+			for _, o := range origins {
+				for _, m := range acrms {
+					for _, h := range acrhs {
+						for _, pn := range acrpns {
+							for _, pre := range pres {
+								var rq request
+								rq.method, rq.pre = method, pre
+								add := func(k string, x opt) {
+									if x.present {
+										rq.hdrs = append(rq.hdrs, kv{k, x.v})
+									}
+								}
+								add("Origin", o)
+								add("Access-Control-Request-Method", m)
+								add("Access-Control-Request-Headers", h)
+								add("Access-Control-Request-Private-Network", pn)
+								for _, dbg := range []bool{false, true} {
+									serveCase(e, c, dbg, rq)
+								}
+							}
+						}
+					}
+				}
+			}
+		}
+	}
 }
